@@ -207,7 +207,8 @@ Section Codecs2.
               (snd (feed_rtmp_msg b64_enc hex_enc tool rtsp_fixed s i)).
   Proof.
     unfold feed_rtmp_msg. destruct i as [ac rate|m].
-    - cbn [fst snd set_audio_guess q_done]. unfold sdp_first. destruct (q_done s); [split; [reflexivity|constructor]|left; now split].
+    - destruct (rtsp_fixed && q_done s) eqn:Eg; cbn [fst snd set_audio_guess q_done]; unfold sdp_first;
+      (destruct (q_done s); [split; [reflexivity|constructor]|left; now split]).
     - destruct (if rm_type m =? type_audio then _ else _).
       { cbn [fst snd]. unfold sdp_first. destruct (q_done s); [split; [reflexivity|constructor]|left; now split]. }
       set (s0 := if (rm_type m =? type_audio) && (q_apt s =? pt_unknown)%Z then _ else s).
